@@ -7,6 +7,7 @@ import subprocess
 from pbt import env
 
 _BIN = None
+LEAF_KINDS = ("CHOOSE", "WINDOWED", "MALLEABLE")
 
 
 def driver_binary():
@@ -33,6 +34,10 @@ def to_text(case, values=None):
         elif k == "ALLOCATION":
             flat = " ".join(f"{pid} {q}" for pid, q in n["alloc"])
             lines.append(f"NODE {i} ALLOCATION {n['name']} {len(n['alloc'])} {flat} {n['start']} {n['duration']}")
+        elif k == "WINDOWED":
+            lines.append(f"NODE {i} WINDOWED {n['name']} {len(n['parts'])} {' '.join(map(str, n['parts']))} {n['machines']} {n['start']} {n['duration']} {n['end']} {n['wgran']} {n['utility']}")
+        elif k == "MALLEABLE":
+            lines.append(f"NODE {i} MALLEABLE {n['name']} {len(n['parts'])} {' '.join(map(str, n['parts']))} {n['slots']} {n['start']} {n['end']} {n['wgran']} {n['utility']}")
         elif k == "SCALE":
             lines.append(f"NODE {i} SCALE {n['name']} {n['factor']} {1 if n.get('disregard') else 0}")
         else:
@@ -42,21 +47,66 @@ def to_text(case, values=None):
             lines.append(f"EDGE {i} {c}")
     lines.append(f"ROOT {case['root']}")
     if values is not None:
+        # keyed by the rank of the variable id: ids keep growing while one driver process serves many cases
         lines.append(f"VALUES {len(values)}")
-        for vid, v in values.items():
-            lines.append(f"{vid} {v}")
+        for rank, vid in enumerate(sorted(values)):
+            lines.append(f"{rank} {values[vid]}")
     lines.append("END")
     return "\n".join(lines) + "\n"
 
 
+_PROC = None
+
+
+def _proc():
+    """One driver process per worker process, serving END-terminated cases until it is closed."""
+    global _PROC
+    if _PROC is None or _PROC.poll() is not None:
+        os.makedirs(env.WORK_DIR, exist_ok=True)  # the library drops libtetrisched_performance.csv into its cwd
+        _PROC = subprocess.Popen([driver_binary()], stdin=subprocess.PIPE, stdout=subprocess.PIPE, stderr=subprocess.DEVNULL, text=True, bufsize=1, cwd=env.WORK_DIR)
+    return _PROC
+
+
+def _kill():
+    global _PROC
+    if _PROC is not None:
+        try:
+            _PROC.kill()
+            _PROC.wait(timeout=5)
+        except Exception:
+            pass
+    _PROC = None
+
+
 def run_driver(case, values=None):
-    p = subprocess.run([driver_binary()], input=to_text(case, values), capture_output=True, text=True, timeout=60)
-    if p.returncode != 0 or not p.stdout.strip():
-        return {"error": f"driver exit {p.returncode}: {p.stderr[-500:]}"}
-    try:
-        return json.loads(p.stdout.strip().splitlines()[-1])
-    except Exception as e:  # pragma: no cover
-        return {"error": f"unparsable driver output: {e}: {p.stdout[-300:]}"}
+    import select
+
+    text = to_text(case, values)
+    for attempt in (0, 1):
+        p = _proc()
+        try:
+            p.stdin.write(text)
+            p.stdin.flush()
+            ready, _, _ = select.select([p.stdout], [], [], 60)
+            if not ready:
+                _kill()
+                return {"error": "driver timeout (60 s)"}
+            line = p.stdout.readline()
+        except (BrokenPipeError, OSError):
+            _kill()
+            continue
+        if not line:
+            rc = p.poll()
+            _kill()
+            if attempt == 0 and rc is None:
+                continue
+            return {"error": f"driver exited ({rc}) without an answer"}
+        try:
+            return json.loads(line)
+        except Exception as e:  # pragma: no cover
+            _kill()
+            return {"error": f"unparsable driver output: {e}: {line[-300:]}"}
+    return {"error": "driver could not be started"}
 
 
 # ----------------------------------------------------------------------------- the model, as Gurobi would see it
@@ -103,11 +153,49 @@ def schedulable(case, n):
     return [p for p in n["parts"] if p in pids]
 
 
+def _ceil_to(x, g):
+    return g * -(-x // g)
+
+
+def windowed_starts(case, n):
+    """Start slots a WindowedChoose offers: the grid points (multiples of its granularity) from its start up to its last
+    allowed start, both rounded up to the grid, whose run still ends within the rounded window.  Empty = no utility."""
+    if case["now"] > n["end"] or not schedulable(case, n):
+        return []
+    g, d = n["wgran"], n["duration"]
+    lo, hi, end_ub = _ceil_to(n["start"], g), _ceil_to(n["end"], g), _ceil_to(n["end"] + d, g)
+    return [t for t in range(lo, hi + 1, g) if t + d <= end_ub]
+
+
+def malleable_slots(case, n):
+    if case["now"] > n["start"]:
+        return None  # no utility
+    return list(range(n["start"], n["end"], n["wgran"]))
+
+
 def leaf_options(case, n):
-    """None (unsatisfied) or an allocation {pid: qty} meeting the demand exactly."""
+    """None (unsatisfied) or an allocation {pid: qty} meeting the demand exactly.
+    WindowedChoose: (start, allocation).  MalleableChoose: {(pid, slot): qty} summing to the requested resource-time."""
     parts = schedulable(case, n)
     q = {p["id"]: p["q"] for p in case["partitions"]}
     opts = [None]
+    if n["kind"] == "WINDOWED":
+        ranges = [range(0, min(q[p], n["machines"]) + 1) for p in parts]
+        allocs = [{p: c for p, c in zip(parts, combo) if c} for combo in itertools.product(*ranges) if sum(combo) == n["machines"]]
+        for t in windowed_starts(case, n):
+            for a in allocs:
+                opts.append((t, a))
+        return opts
+    if n["kind"] == "MALLEABLE":
+        slots = malleable_slots(case, n)
+        if not slots or not parts:
+            return opts
+        cells = [(p, t) for p in parts for t in slots]
+        ranges = [range(0, min(q[p], n["slots"]) + 1) for p, _t in cells]
+        for combo in itertools.product(*ranges):
+            if sum(combo) == n["slots"]:
+                opts.append({c: v for c, v in zip(cells, combo) if v})
+        return opts
     if n["start"] < case["now"] or not parts:
         return [None]
     ranges = [range(0, min(q[p], n["machines"]) + 1) for p in parts]
@@ -129,6 +217,15 @@ def capacity_ok(case, decisions, resolution=1):
         elif n["kind"] == "CHOOSE" and decisions.get(i):
             for pid, qty in decisions[i].items():
                 for t in range(n["start"], n["start"] + n["duration"]):
+                    use[(pid, t)] = use.get((pid, t), 0) + qty
+        elif n["kind"] == "WINDOWED" and decisions.get(i):
+            t0, alloc = decisions[i]
+            for pid, qty in alloc.items():
+                for t in range(t0, t0 + n["duration"]):
+                    use[(pid, t)] = use.get((pid, t), 0) + qty
+        elif n["kind"] == "MALLEABLE" and decisions.get(i):
+            for (pid, t0), qty in decisions[i].items():
+                for t in range(t0, t0 + n["wgran"]):
                     use[(pid, t)] = use.get((pid, t), 0) + qty
     for (pid, t), u in use.items():
         if u > q.get(pid, 0):
@@ -156,6 +253,22 @@ def evaluate(case, decisions):
                 sat = decisions.get(i) is not None
                 r = {"nou": False, "sat": sat, "util": n["utility"] if sat else 0.0, "start": n["start"], "end": n["start"] + n["duration"],
                      "var_ind": True, "var_time": False}
+        elif k == "WINDOWED":
+            if not windowed_starts(case, n):
+                r = {"nou": True}
+            else:
+                d = decisions.get(i)
+                sat = d is not None
+                r = {"nou": False, "sat": sat, "util": n["utility"] if sat else 0.0, "start": d[0] if sat else None, "end": d[0] + n["duration"] if sat else None,
+                     "var_ind": True, "var_time": True}
+        elif k == "MALLEABLE":
+            if malleable_slots(case, n) is None:
+                r = {"nou": True}
+            else:
+                d = decisions.get(i)
+                sat = d is not None
+                r = {"nou": False, "sat": sat, "util": n["utility"] if sat else 0.0, "start": min(t for _p, t in d) if sat else None,
+                     "end": max(t for _p, t in d) + n["wgran"] if sat else None, "var_ind": True, "var_time": True}
         elif k == "ALLOCATION":
             r = {"nou": False, "sat": True, "util": 0.0, "start": n["start"], "end": n["start"] + n["duration"], "var_ind": False, "var_time": False}
         elif k == "SCALE":
@@ -177,7 +290,7 @@ def evaluate(case, decisions):
                 sat = len(sats) == 1
                 r = {"nou": False, "sat": sat, "util": sum(c["util"] for c in ok), "start": sats[0]["start"] if sat else None,
                      "end": sats[0]["end"] if sat else None, "var_ind": True, "var_time": True,
-                     "first_start": min(c["start"] for c in ok)}
+                     "first_start": min((c["start"] for c in ok if c.get("start") is not None), default=None)}
         elif k == "MIN":
             cs = [ev(c) for c in n["children"]]
             if any(c["nou"] for c in cs):
@@ -228,7 +341,7 @@ def evaluate(case, decisions):
 
 
 def brute_force_optimum(case, limit=40000):
-    leaves = [i for i, n in enumerate(case["nodes"]) if n["kind"] == "CHOOSE"]
+    leaves = [i for i, n in enumerate(case["nodes"]) if n["kind"] in LEAF_KINDS]
     opts = [leaf_options(case, case["nodes"][i]) for i in leaves]
     total = 1
     for o in opts:
